@@ -45,6 +45,7 @@ type Engine struct {
 	topVars      map[string]*Val
 	topPkg       *ssa.Package
 	topFrame     *Frame
+	noAxioms     bool
 }
 
 type KnownFinding struct {
@@ -416,7 +417,7 @@ func (e *Engine) store(st *State, p *Val, elem types.Type, v *Val) error {
 	default:
 		return fmt.Errorf("store through unsupported address kind %s (outside subset: []byte element store)", a.Kind)
 	}
-	if v.Fn != nil || v.Dyn != nil {
+	if v.Fn != nil || v.Dyn != nil || v.Borrowed != "" {
 		st.facts[factKey(a)] = v
 	} else {
 		delete(st.facts, factKey(a))
@@ -592,9 +593,19 @@ func (e *Engine) strCat(st *State, a, b string) string {
 	ps := append(scatPieces(a), scatPieces(b)...)
 	var qs []string
 	for _, p := range ps {
-		if p != "empty_str" {
-			qs = append(qs, p)
+		if p == "empty_str" {
+			continue
 		}
+		// adjacent literals are merged into one literal, so "a" ++ "b" and "ab" are the same term
+		if n := len(qs); n > 0 {
+			if t1, ok1 := e.reg.litText(qs[n-1]); ok1 {
+				if t2, ok2 := e.reg.litText(p); ok2 {
+					qs[n-1] = e.reg.strLit(t1 + t2)
+					continue
+				}
+			}
+		}
+		qs = append(qs, p)
 	}
 	if len(qs) == 0 {
 		return "empty_str"
@@ -602,7 +613,7 @@ func (e *Engine) strCat(st *State, a, b string) string {
 	t := qs[len(qs)-1]
 	for i := len(qs) - 2; i >= 0; i-- {
 		nt := "(scat " + qs[i] + " " + t + ")"
-		if st != nil && !st.asserted["len:"+nt] {
+		if st != nil && !st.asserted["len:"+nt] && !strings.Contains(nt, "q_") { // (not for terms over quantifier-bound variables)
 			// length of a concatenation (no string is longer than 2^48 bytes: no wrap-around)
 			st.asserted["len:"+nt] = true
 			st.pc = append(st.pc, "(= (slen "+nt+") (bvadd (slen "+qs[i]+") (slen "+t+")))",
@@ -681,6 +692,16 @@ func (e *Engine) simpleInstr(fr *Frame, st *State, instr ssa.Instruction) (*Val,
 		pt := in.Type().(*types.Pointer).Elem()
 		ref := st.newRef()
 		v := &Val{T: ref, S: sInt, Typ: in.Type()}
+		for _, zg := range e.specs.ZeroGhosts {
+			if types.TypeString(pt, nil) == zg.Type {
+				ctx := &EvalCtx{e: e, st: st, vars: map[string]*Val{}}
+				gs := e.ghostSort(zg.Ghost)
+				_, vs := arraySorts(gs)
+				if zv, err := ctx.evalAs(zg.Value, vs); err == nil {
+					st.ghost[zg.Ghost] = sto(e.ghostGet(st, st.ghost, zg.Ghost), ref, zv.T)
+				}
+			}
+		}
 		switch u := pt.Underlying().(type) {
 		case *types.Struct:
 			e.storeStruct(st, ref, pt, e.reg.zero(e.reg.structSort(pt)))
@@ -727,6 +748,11 @@ func (e *Engine) simpleInstr(fr *Frame, st *State, instr ssa.Instruction) (*Val,
 			return nil, fmt.Errorf("interior pointer %s stored to memory (outside subset)", in.Val.Name())
 		}
 		st.markEscaped(v.T)
+		if v.Borrowed != "" {
+			if _, isVarargs := in.Addr.(*ssa.IndexAddr); !isVarargs {
+				e.borrowCheck(fr, st, v, "stored in memory", in.Pos())
+			}
+		}
 		return nil, e.store(st, p, in.Addr.Type().(*types.Pointer).Elem(), v)
 	case *ssa.Convert:
 		return e.convert(fr, st, in)
@@ -1000,6 +1026,7 @@ func (e *Engine) sliceInstr(fr *Frame, st *State, in *ssa.Slice) (*Val, error) {
 		st.assume(fmt.Sprintf("(=> (and (= %s %s) (= %s (slen %s))) (= %s %s))", lo, zero, hi, s, sub, s))
 		if x.S == sBytes {
 			res.T = "(mkBytes (b_nil " + x.T + ") " + sub + ")"
+			res.Borrowed = x.Borrowed
 		} else {
 			res.T = sub
 		}
@@ -1128,9 +1155,13 @@ func (e *Engine) execBlock(fr *Frame, st *State, b *ssa.BasicBlock, k retK) {
 			return
 		}
 		c := e.contractFor(fr.fn)
-		if c == nil || !hasLoopSpec(c, ord) {
-			e.errorf("%s: loop #%d (block %d) has no invariant: function is outside the verifiable subset", fr.fn, ord, b.Index)
-			return
+		if c == nil {
+			c = &Contract{Key: fr.fn.String(), Lets: map[string]*Let{}, Opts: map[string]string{}, ModLoop: map[int][]string{}}
+		}
+		if !hasLoopSpec(c, ord) {
+			// No invariant given: the loop is cut with the invariant `true` (everything it may modify is havocked).
+			// Sound, but weak: facts that needed an invariant are lost and the obligations depending on them fail.
+			e.warnf("%s: loop #%d (block %d) has no invariant: verified with the trivial invariant", fr.fn, ord, b.Index)
 		}
 		e.checkLoopInvariants(fr, st, b, ord, "invariant-entry")
 		// havoc
@@ -1202,6 +1233,9 @@ func (e *Engine) execFrom(fr *Frame, st *State, b *ssa.BasicBlock, idx int, k re
 			for _, r := range in.Results {
 				rv := e.operand(fr, st, r)
 				st.markEscaped(rv.T)
+				if rv.Borrowed != "" && fr.top {
+					e.borrowCheck(fr, st, rv, "returned", in.Pos())
+				}
 				rs = append(rs, rv)
 			}
 			k(st, rs)
